@@ -51,6 +51,14 @@ package redis
 //@   ensures implies(scriptErr != nil || scriptResp == nil, !ok)
 //@   modifies scriptResp, scriptErr, scriptCalls
 
+// the configured lease is the one set last
+//@ func (rl *RedisLock) SetExpire
+//@   property C19
+//@   overflow checked
+//@   requires 0 <= seconds && seconds <= 4294967295
+//@   ensures rl.seconds == seconds
+//@   modifies rl.seconds
+
 //@ func (rl *RedisLock) ReleaseCtx
 //@   property C19
 //@   results ok, err
